@@ -31,6 +31,11 @@ def make(rng, cls):
         else:
             els = ["N", "C", "S"]
         pos, cont = np.array([[-d1, 0, 0], [0, 0, 0], [d2, 0, 0]]), "line"
+    elif cls == "nearly_linear3":
+        # three atoms almost, but not quite, in a line (a cyanate / thiocyanate / azide-like unit drawn with a slight bend)
+        d1, d2 = rng.uniform(1.6, 3.0, 2)
+        els = ["N", "C", "S"]
+        pos = np.array([[-d1, 0, 0], [0, rng.uniform(0.03, 0.15), 0], [d2, 0, 0]])
     elif cls == "planar_d3h":
         r = rng.uniform(1.2, 1.6)
         els = ["B", "F", "F", "F"]
@@ -154,11 +159,21 @@ def make(rng, cls):
     return {"cls": cls, "elements": list(els), "positions": pos, "chiral": chiral, "continuous_symmetry": cont, "frame": frame}
 
 
-def to_atoms(p, id_base=-1.0, unused_type=False, **kw):
-    """unused_type: the pattern object is what is left of a larger fragment after an atom of another element (one the structure
+def to_atoms(p, id_base=-1.0, unused_type=False, table_order=None, **kw):
+    """table_order='reversed': the pattern carries explicit atom types whose table lists the elements in the reverse order of their
+    first appearance (a pattern read from a typed data file, or cut from a structure with structure[indices], which keeps the
+    structure's table): its first atom is then not of the first type.
+    unused_type: the pattern object is what is left of a larger fragment after an atom of another element (one the structure
     does not contain) was deleted from it - its type table keeps an entry that no atom uses"""
     from mofun import Atoms
     n = len(p["elements"])
+    if table_order == "reversed" and n >= 1 and not kw:
+        from mofun.atomic_masses import ATOMIC_MASSES
+        els = list(p["elements"])
+        table = list(dict.fromkeys(reversed(els)))
+        return Atoms(atom_types=[table.index(e) for e in els], positions=np.array(p["positions"], float), atom_type_elements=table,
+                     atom_type_masses=[ATOMIC_MASSES[e] for e in table], atom_type_labels=["%s_t" % e for e in table],
+                     charges=[id_base - i / 64.0 for i in range(n)])
     if unused_type and n >= 1 and not kw:
         pos = np.array(p["positions"], float)
         a = Atoms(elements=list(p["elements"]) + ["Fr"], positions=np.vstack([pos, pos.mean(0) + [7.0, 5.0, 3.0]]),
